@@ -1,6 +1,7 @@
 import BV.Lemmas.MatchTop
 import BV.Props.C18
 import BV.Lemmas.RecoderDist
+import BV.Props.C01
 /-! From a sound search result to a command: `ComputeDistanceCode` denotes the distance under the
 RFC 7932 short-code rules, and the command built by `Command::init` replays to the matched bytes. -/
 namespace BV.MatchFinder
@@ -365,13 +366,17 @@ theorem decStep_emitCommand (w : WordOracle) (np nd window : Nat) (hp : np ≤ 3
 
 /-! ### from the ring buffer to the text -/
 
-/-- the ring buffer `data` (ring size `2^k`, followed by a tail) holds the text `T`: every position
-of `[lo, hi)` lives at its offset modulo the ring size, and the tail mirrors the head (what
-`RingBufferWrite` maintains) -/
-structure RingView (data : ByteArray) (k : Nat) (T : Bytes) (lo hi : Nat) : Prop where
-  holds : ∀ p, lo ≤ p → p < hi → (data.get! (p % 2 ^ k)).toNat = T.getD p 0
-  mirror : ∀ i, 2 ^ k ≤ i → i < data.size → data.get! i = data.get! (i - 2 ^ k)
-  size : data.size ≤ 2 * 2 ^ k
+/-- the bytes the match finders see: `data[i]` of the slice `data_mo[2..]` they are handed (the
+`ByteArray` the models read), as a function — the representation w-stream's `RingViewW` talks about
+(`fun i => rb.get (2 + i)` there) -/
+def ringBytes (data : ByteArray) : Nat → Nat := fun i => (data.get! i).toNat
+
+/-- **the ring hypothesis** = w-stream's `RingViewW` (BV/Props/C01.lean, proved from `RingOK` by
+`ring_view_w`) read off the `ByteArray`: every position of `[lo, hi)` lives at its offset modulo the
+ring size `2^k`, and WRAPPED positions (`p ≥ 2^k`) whose offset is below `tail` are also at
+`2^k + offset`.  Nothing is asked of the slack behind the tail nor of tail cells of first-lap positions. -/
+abbrev RingView (data : ByteArray) (k tail : Nat) (T : Bytes) (lo hi : Nat) : Prop :=
+  BV.Props.C01.RingViewW (ringBytes data) k tail T lo hi
 
 theorem ring_index (x j K : Nat) :
     (x % K + j < K → (x + j) % K = x % K + j) ∧
@@ -380,27 +385,38 @@ theorem ring_index (x j K : Nat) :
   refine ⟨fun h => by rw [e, Nat.mod_eq_of_lt h], fun h1 h2 => ?_⟩
   rw [e, Nat.mod_eq_sub_mod h1, Nat.mod_eq_of_lt (by omega)]
 
-/-- a byte of the ring buffer at `(p mod ring) + j` (possibly in the tail) is the text at `p + j` -/
-theorem RingView.at {data : ByteArray} {k : Nat} {T : Bytes} {lo hi : Nat} (hv : RingView data k T lo hi)
-    (p j : Nat) (hlo : lo ≤ p + j) (hhi : p + j < hi) (hin : p % 2 ^ k + j < data.size) :
+/-- a byte of the ring buffer at `(p mod ring) + j` (possibly in the tail) is the text at `p + j`,
+for reads that stay inside ring + tail -/
+theorem RingView.at {data : ByteArray} {k tail : Nat} {T : Bytes} {lo hi : Nat} (hv : RingView data k tail T lo hi)
+    (htail : tail ≤ 2 ^ k) (p j : Nat) (hlo : lo ≤ p + j) (hhi : p + j < hi) (hin : p % 2 ^ k + j < 2 ^ k + tail) :
     (data.get! (p % 2 ^ k + j)).toNat = T.getD (p + j) 0 := by
   obtain ⟨i1, i2⟩ := ring_index p j (2 ^ k)
   by_cases hlt : p % 2 ^ k + j < 2 ^ k
-  · rw [← hv.holds (p + j) hlo hhi, i1 hlt]
+  · have := hv.holds (p + j) hlo hhi
+    rw [i1 hlt] at this
+    exact this
   · have hge : 2 ^ k ≤ p % 2 ^ k + j := by omega
-    have h2 : p % 2 ^ k + j < 2 * 2 ^ k := Nat.lt_of_lt_of_le hin hv.size
-    rw [hv.mirror _ hge hin, ← hv.holds (p + j) hlo hhi, i2 hge h2]
+    have h2 : p % 2 ^ k + j < 2 * 2 ^ k := by omega
+    have hm := i2 hge h2
+    have hp : 2 ^ k ≤ p + j := by have := Nat.mod_le p (2 ^ k); omega
+    have := hv.mirror (p + j) hlo hhi hp (by omega)
+    rw [hm, show 2 ^ k + (p % 2 ^ k + j - 2 ^ k) = p % 2 ^ k + j by omega] at this
+    exact this
 
 /-- **a match found in the ring buffer is a match in the text**: `Agree` on the masked offsets
 (what `match_sound` delivers) means `T[cur - d + j] = T[cur + j]` for all `j < len`, as long as
-both stretches are still in the ring (`lo ≤ cur - d`, `cur + len ≤ hi`) -/
-theorem ring_match_is_text_match {data : ByteArray} {k : Nat} {T : Bytes} {lo hi : Nat}
-    (hv : RingView data k T lo hi) {cur d len : Nat} (hd : d ≤ cur) (hlo : lo ≤ cur - d)
-    (hhi : cur + len ≤ hi) (hag : Agree data ((cur - d) % 2 ^ k) (cur % 2 ^ k) len) :
+both stretches are still in the ring (`lo ≤ cur - d`, `cur + len ≤ hi`) and the match is at most a
+tail (one input block) long, so that neither read runs past ring + tail -/
+theorem ring_match_is_text_match {data : ByteArray} {k tail : Nat} {T : Bytes} {lo hi : Nat}
+    (hv : RingView data k tail T lo hi) (htail : tail ≤ 2 ^ k) {cur d len : Nat} (hd : d ≤ cur) (hlo : lo ≤ cur - d)
+    (hhi : cur + len ≤ hi) (hlen : len ≤ tail) (hag : Agree data ((cur - d) % 2 ^ k) (cur % 2 ^ k) len) :
     ∀ j, j < len → T.getD (cur - d + j) 0 = T.getD (cur + j) 0 := by
   intro j hj
-  have h1 := hv.at (cur - d) j (by omega) (by omega) (by have := hag.1; omega)
-  have h2 := hv.at cur j (by omega) (by omega) (by have := hag.2.1; omega)
+  have hpos : 0 < 2 ^ k := Nat.pow_pos (by decide)
+  have m1 := Nat.mod_lt (cur - d) hpos
+  have m2 := Nat.mod_lt cur hpos
+  have h1 := hv.at htail (cur - d) j (by omega) (by omega) (by omega)
+  have h2 := hv.at htail cur j (by omega) (by omega) (by omega)
   rw [← h1, ← h2]
   exact hag.2.2 j hj
 
